@@ -42,7 +42,8 @@ PROPS = {
         technique="Lean 4 theorems: groupcache LRU = truncated recency order, hence exactly-once forwarding inside the dedup window for every reply history; invariant of the proxy's unbuffered hand-off over all interleavings; skeleton facts (T3) of the polling loop and the hand-off; differential runs of the real lru.Cache and the real polling loop against the model",
         level_text="Proof for every history of pending-list replies (any repeats, order, grouping) that each ID is forwarded exactly once when every repeat falls inside the 1000-entry window (full-strength window condition, plus the property's 'at most 1000 distinct outstanding' as a corollary), with a proved counter-example just outside the window; proof over all interleavings of arrivals, cancellations and polls by any number of pollers that each ID is handed to exactly one list reply. Loop/hand-off structure and the constant 1000 are regenerated from the source on every run.",
         level_note=STD_NOTE + "Modelled, not verified: groupcache/lru (hand model Base/Lru, compared with the real cache on every run), the Go channel semantics of the unbuffered hand-off (one receive completes exactly one sender), goroutine start. Worker retry counts are checked by the dedup suite, not proved.",
-        suites=[dict(driver="lib", suite="lru"), dict(driver="agent", suite="dedup", env={"VERIF_DRIVER": "1"}, race="thorough")],
+        suites=[dict(driver="lib", suite="lru"), dict(driver="agent", suite="dedup", env={"VERIF_DRIVER": "1"}, race="thorough"),
+                dict(driver="lib", suite="handoff", bins={"SERVER": "server"}, race="thorough")],
         assumptions=["an unbuffered Go channel hands each sent value to exactly one receiver", "request IDs generated by the proxy are unique (see C01)"],
     ),
     "C06": dict(
@@ -79,5 +80,27 @@ PROPS = {
         level_note=STD_NOTE + "Modelled, not verified: encoding/json text parsing and printing (values are an inductive type; numbers are compared as IEEE doubles), gorilla/websocket framing, Go channel FIFO semantics, the 'one data post and one poll outstanding at a time' discipline of the browser shim (a precondition of the property).",
         suites=[dict(driver="lib", suite="wsrelay"), dict(driver="lib", suite="wsinject")],
         assumptions=["Go channels are FIFO", "one data post and one poll outstanding at a time (as the injected browser shim does)", "JSON object keys are unique"],
+    ),
+    "C10": dict(
+        technique="Lean 4 theorems on a hand model of the session layer over an abstract cookie jar: request/response step semantics, LRU-of-jars = keys-only LRU, refinement to one independent jar per session under the most-recently-used window for every interleaving of request and response steps; lock-region facts (T3) and cookie attributes (T2) regenerated; differential runs against real cookiejar references and -race runs",
+        level_text="Proof for every history of request and response steps of any number of sessions (steps of different requests interleaved arbitrarily): the backend receives the client's other cookies plus exactly what an independent jar fed with that session's own responses holds, as long as the session is re-used before `limit` other sessions are; a response changes no other session's jar; the client only ever receives the agent's session cookie, issued iff it presented none. Lock regions of the cache and the cookie literal are regenerated from sessions.go on every run.",
+        level_note=STD_NOTE + "Modelled, not verified: net/http/cookiejar (abstract JarOps parameter; the real jar is compared with independent reference jars on every run), cookie parsing/serialisation, uuid freshness (a fresh ID is a parameter of the response step). The model's step atomicity rests on the single critical section of cachedCookieJar (T3 fact) and is validated under the race detector.",
+        suites=[dict(driver="lib", suite="sessions"), dict(driver="lib", suite="sessionsrace", race=True)],
+        assumptions=["uuid.New() returns IDs that are fresh", "cookiejar.Jar is safe for concurrent use (documented)"],
+    ),
+    "C01": dict(
+        technique="Lean 4 invariant proof over a labelled transition system of clients, agent workers and deliveries (all interleavings), parametrised by the ID-generator variant; the variant and the locking/rendezvous structure are decided from regenerated skeletons (T3); differential runs of sequentialised histories and a concurrent token-echo soak through the real proxy binary and real agent code under the race detector",
+        level_text="Proof for any number of clients and every interleaving of arrivals, fetches, backend completions, uploads and deliveries: a delivered response was produced from the receiving client's own request, each client gets at most one, a fetch by ID returns the registered client's request, IDs are unique - under an atomic ID draw; with a proved counter-example for the unsynchronised draw of the original code. That the code performs the draw and every map access under the proxy mutex and correlates through the pending request's own unbuffered channel is regenerated from server.go on every run.",
+        level_note=STD_NOTE + "Modelled, not verified: SHA-256 of distinct generator outputs are distinct and math/rand does not repeat within a run (IDs are modelled as a fresh counter); responses are atomic tokens in the model (streaming of one response's parts is C03/C05); Go mutex/channel semantics; net/http.",
+        suites=[dict(driver="lib", suite="relay", bins={"SERVER": "server"}),
+                dict(driver="lib", suite="relaysoak", race=True, bins={"SERVER": "server", "AGENT": "agent"})],
+        assumptions=["request IDs (SHA-256 of PRNG outputs) do not collide", "Go's sync.Mutex and unbuffered channels behave as specified (DRF-SC for race-free code, validated with -race)"],
+    ),
+    "C16": dict(
+        technique="Lean 4 labelled transition system of one bridged connection (four copy loops, three hops per direction, teardown variant read off the regenerated skeletons): decided counter-examples for the code as it is and for first-done teardown, inductive invariant + bounded-progress proof for half-close forwarding; black-box runs through the real bridge binaries",
+        level_text="The code is classified (from the regenerated skeletons of connection.Handler and the frontend main) as `waitBoth`, for which the property is FALSE: kernel-checked traces show the close never reaching the other peer and both sides leaking after both peers closed (known findings, reproduced on the real binaries on every run). Proof that first-done teardown loses in-flight data, and proof - for all interleavings of sends, closes and loop steps - that forwarding half-close per direction conserves data, never tears down spuriously, and reaches end-of-stream/release within `mu` internal steps. A change of the teardown structure changes the classification theorem.",
+        level_note=STD_NOTE + "Partial: 'bounded time' is a bound on internal steps in the model; seconds are only measured (2 s time-out). Modelled, not verified: TCP/websocket in-order delivery with FIN after data, io.Copy loop termination conditions, gorilla Close semantics.",
+        suites=[dict(driver="lib", suite="bridgelife", bins={"BRIDGE_FRONTEND": "utils/tcpbridge/tcp-bridge-frontend", "BRIDGE_BACKEND": "utils/tcpbridge/tcp-bridge-backend"})],
+        assumptions=["TCP and the websocket deliver in order; a close is observed after the data queued before it"],
     ),
 }
